@@ -158,6 +158,7 @@ def gen_cfg(rng, shape=None, nnt=None, nterms=None, convergent=True, maxrules=8,
     elif shape == "undefined_nt":
         rules.append([rng.choice(W), A, ["Undef", rng.choice(terms)]])
         rules.append([rng.choice(W), A, [rng.choice(terms), "Undef2"]])
+        rules.append([rng.choice(SMALL), rng.choice(nts), ["Undef3"]])     # a UNARY rule to a nonterminal that heads no rule
     elif shape == "mixed":
         rules.append([rng.choice(W), A, []])
         rules.append([rng.choice(SMALL), A, [B]])
